@@ -278,14 +278,70 @@ class Guards:
             r = pg.reach([pg.entry()], avoid={e})
             self._dom[e] = (allreach - r, bb, val, vals)
 
-    def atoms_at(self, node):
+    def atoms_at(self, node, _depth=0):
         if self._dom is None:
             self._compute()
+        memo = self.__dict__.setdefault("_memo", {})
+        if node in memo:
+            return memo[node]
+        memo[node] = []          # cut recursion through loops
         out = []
         for e, (dom, bb, val, vals) in self._dom.items():
             if node in dom and node != e:
                 out.extend(self.describe_all(bb, val, vals))
-        return sorted(set(out))
+                if _depth < 3:
+                    out.extend(self._refine(bb, val, vals, _depth))
+        memo[node] = sorted(set(out))
+        return memo[node]
+
+    def _refine(self, bb, val, vals, depth):
+        """The switch at bb tests the variant of a local that was assigned constant variants at several places
+        (`let kind = if a { Kind::X } else if b { Kind::Y } else { Kind::Z }; match kind {..}`).  Taking the arm
+        for one variant means control came through an assignment of that variant: whatever holds at every such
+        assignment holds here too."""
+        blk = self.fn.blocks[bb]
+        t = blk["term"]
+        if t["discr"]["k"] not in ("copy", "move") or t["discr"]["place"]["proj"]:
+            return []
+        dl = t["discr"]["place"]["local"]
+        src = None
+        for st in blk["stmts"]:
+            if st["s"] == "assign" and st["place"]["local"] == dl and not st["place"]["proj"] and st["rv"]["r"] == "discriminant" and not st["rv"]["place"]["proj"]:
+                src = st["rv"]["place"]["local"]
+        if src is None:
+            return []
+        names = self._variant_names(bb)
+        if not names:
+            return []
+        defs = self.prov.defs.get(src, [])
+        if len(defs) < 2:
+            return []
+        want = None if val == "otherwise" else names.get(val)
+        excluded = {names.get(v) for v in vals if v != "otherwise"} if val == "otherwise" else set()
+        consistent = []
+        for d in defs:
+            st = d[2] if len(d) > 2 else None
+            if d[1] == "t" or st is None or st.get("s") != "assign":
+                return []
+            rv = st["rv"]
+            vn = None
+            if rv["r"] == "aggregate" and rv.get("agg") == "adt" and rv.get("variant"):
+                vn = "%s::%s" % (rv["adt"].split("::")[-1], rv["variant"])
+                if vn not in names.values():
+                    vn = rv["variant"]
+            elif rv["r"] == "use" and rv["op"]["k"] == "const" and "variant" in rv["op"]:
+                vn = "%s::%s" % (rv["op"]["enum"].split("::")[-1], rv["op"]["variant"])
+            if vn is None:
+                return []
+            if (want is not None and vn == want) or (want is None and vn not in excluded):
+                consistent.append(("s", d[0], d[1]))
+        if not consistent:
+            return []
+        common = None
+        for n in consistent:
+            a = set(self.atoms_at(n, depth + 1))
+            common = a if common is None else (common & a)
+        return sorted(common or [])
 
     def describe(self, bb, val, vals):
         """Canonical atom for taking the edge labelled `val` out of block bb (first of describe_all)."""
